@@ -329,12 +329,14 @@ pub fn gen_case(r: &mut Rng) -> FxCase {
 
     // rows
     // (currency, rate) scenarios of one amount: mostly valid
-    let slots: [(&str, &str); 20] = [
+    let slots: [(&str, &str); 25] = [
         ("USD", "-"), ("USD", "-"), ("USD", "-"), ("USD", "-"), ("USD", "-"), ("usd", "-"),
         ("USD", "1.25"), ("USD", "1.3001"), ("CAD", "-"), ("-", "-"), ("-", "-"), ("CAD", "1"), ("cad", "1.0"),
         ("EUR", "0.75"), ("EUR", "1.5"),
         // offences
         ("EUR", "-"), ("CAD", "1.25"), ("-", "1.25"), ("USD", "0"), ("USD", "-1.5"),
+        // CAD with a rate that is almost, but not, 1
+        ("CAD", "1.004"), ("CAD", "0.996"), ("-", "1.0000000001"), ("CAD", "0.99999999"), ("CAD", "1.00"),
     ];
     let nrows = r.below(5) as usize;
     let mut rows = Vec::new();
